@@ -260,14 +260,7 @@ class UnionDict(dict):
 # (fork).  Tokens are 3^k multiples so that token(l)+token(u) is injective on the multiset {l,u} (Bounds has l<=u).
 
 def _dec_token(term):
-    c = S.cur()
-    s_ = z3.simplify(term)
-    for (e, tok) in c.hash_tokens:
-        if e.eq(s_) or c.decide(e == s_):
-            return tok
-    tok = (3 ** (len(c.hash_tokens) + 1)) * 1048583
-    c.hash_tokens.append((s_, tok))
-    return tok
+    return S.decided_token(z3.simplify(term))
 
 
 def inj_hash(x):
